@@ -473,7 +473,7 @@ template <class D> struct Runner {
     for (size_t k = 0; k < lines.size(); ++k) {
       Toks tk(lines[k]); if (!tk.more()) continue;
       std::string cmd = tk.next();
-      std::cout << "cmd " << lines[k] << "\n";
+      std::cout << "cmd " << lines[k] << std::endl;
       if (cmd == "eq" || cmd == "eqres" || cmd == "note") continue;
       try {
         try { exec(tk, cmd); }
@@ -572,9 +572,9 @@ struct SynRunner {
       if (op == "set_space_dimension") x.set_space_dimension(tk.nextl());
       else if (op == "set_representation") { std::string r = tk.next(); x.set_representation(r == "sparse" ? SPARSE : DENSE); }
       else if (op == "clear") x.clear();
-      else if (op == "sort_rows") x.sys.sort_rows();
-      else if (op == "unset_pending") x.sys.unset_pending_rows();
-      else if (op == "set_index_first_pending") x.sys.set_index_first_pending_row(x.sys.num_rows());
+      else if (op == "sort_rows") { if (x.sys.num_pending_rows() == 0) x.sys.sort_rows(); }
+      // make pending rows ordinary rows; the sortedness flag is dropped because the former pending rows are in arbitrary order
+      else if (op == "unset_pending") { if (x.sys.num_pending_rows() > 0) { x.sys.unset_pending_rows(); x.sys.set_sorted(false); } }
       else if (op == "remove_trailing") x.sys.remove_trailing_rows(std::min<dimension_type>(tk.nextl(), x.sys.num_rows()));
       else {
         Sys& y = *get(m, tk.nextl());
@@ -617,7 +617,7 @@ struct SynRunner {
     for (size_t k = 0; k < lines.size(); ++k) {
       Toks tk(lines[k]); if (!tk.more()) continue;
       std::string cmd = tk.next();
-      std::cout << "cmd " << lines[k] << "\n";
+      std::cout << "cmd " << lines[k] << std::endl;
       if (cmd == "eq" || cmd == "eqres" || cmd == "note") continue;
       try {
         try { exec(tk, cmd); }
